@@ -322,6 +322,52 @@ Section Cells.
     destruct (contains_char "*" t); eexists; reflexivity.
   Qed.
 
+  (* --- a syntactic class of option lists: IMP keywords with a number, and
+         tokens no branch reacts to --- *)
+  Definition inert_b (t : string) : bool :=
+    negb (String.prefix "imp" t) && negb (contains_sub "fill" t) && negb (contains_sub "lat" t)
+    && negb (contains_sub "trcl" t) && negb (contains_sub "u" t) && negb (contains_sub "rho" t)
+    && negb (contains_sub "mat" t).
+
+  Lemma inert_b_inert t : inert_b t = true -> inert t.
+  Proof.
+    unfold inert_b, inert. intros H.
+    repeat (apply andb_true_iff in H; destruct H as [H ?]).
+    repeat split; apply negb_true_iff; assumption.
+  Qed.
+
+  (* the values of the IMP keywords, or None when the list holds anything but
+     IMP keywords followed by a number and inert tokens *)
+  Fixpoint scan_imps (toks : list string) : option (list T) :=
+    match toks with
+    | [] => Some []
+    | t :: r =>
+        if String.prefix "imp" t then
+          match r with
+          | v :: r' => match fl P v with
+                       | Some x => option_map (cons x) (scan_imps r')
+                       | None => None
+                       end
+          | [] => None
+          end
+        else if inert_b t then scan_imps r else None
+    end.
+
+  Lemma scan_imps_sound : forall n toks xs,
+    (List.length toks <= n)%nat -> scan_imps toks = Some xs -> opt_imps toks xs.
+  Proof.
+    induction n as [|n IH]; intros toks xs Hn H.
+    - destruct toks; [|cbn in Hn; lia]. cbn in H. injection H as <-. apply oi_nil.
+    - destruct toks as [|t r]; [cbn in H; injection H as <-; apply oi_nil|].
+      cbn [scan_imps] in H. destruct (String.prefix "imp" t) eqn:Ep.
+      + destruct r as [|v r']; [discriminate|]. destruct (fl P v) as [x|] eqn:Ef; [|discriminate].
+        destruct (scan_imps r') as [xs'|] eqn:Es; [|discriminate]. cbn in H. injection H as <-.
+        apply oi_imp; [exact Ep|exact Ef|]. apply IH; [cbn in Hn; lia|exact Es].
+      + destruct (inert_b t) eqn:Ei; [|discriminate].
+        apply (oi_other t r O); [apply consumes_inert; apply inert_b_inert; exact Ei|].
+        cbn [skipn]. apply IH; [cbn in Hn; lia|exact H].
+  Qed.
+
   (* ================= the importance of a cell ================= *)
 
   (* cell-card value (the largest of the IMP keywords) if there is one,
@@ -338,9 +384,12 @@ Section Cells.
     destruct (parse_material P mat) as [[mid rho]|] eqn:Em; cbn [bind] in H; [|discriminate].
     destruct (keywords_importance _ _ Ho) as (k & Hk & Hi). rewrite Hk in H. cbn [bind] in H.
     rewrite Hi in H. destruct (max_list Sc xs) as [m|].
-    - cbn [bind] in H. destruct (to_fillid k lat) as [fid|]; cbn [bind] in H; [|discriminate].
+    - cbn [bind] in H.
+      destruct (int_tok _) as [z|]; cbn [of_opt bind] in H; [|discriminate].
+      destruct (to_fillid k lat) as [fid|]; cbn [bind] in H; [|discriminate].
       injection H as <-. reflexivity.
     - destruct (nth_error importances rank) as [v|]; cbn [of_opt bind] in H; [|discriminate].
+      destruct (int_tok _) as [z|]; cbn [of_opt bind] in H; [|discriminate].
       destruct (to_fillid k lat) as [fid|]; cbn [bind] in H; [|discriminate].
       injection H as <-. reflexivity.
   Qed.
